@@ -378,6 +378,15 @@ def _val_cases(tier):
                 for mbv in (True, False):
                     for side in ("BACK", "LAY"):
                         cases.append((cur, mbv, "L", side, p, s, None, "CLASSIC", None))
+        # the payout threshold searched jointly over price and stake: for every tick the two-decimal stakes just
+        # under / at the stake whose payout reaches the minimum (stakes under the minimum stake only)
+        if ":" not in cur_k:
+            for h in refs.CLASSIC:
+                p = h / 100
+                s0 = math.floor(mbp / p * 100) / 100
+                for s in {round(s0 - 0.01, 2), round(s0, 2), round(s0 + 0.01, 2)}:
+                    if 0 < s < mbs:
+                        cases.append((cur, True, "L", "BACK", p, s, None, "CLASSIC", None))
         for l in sorted({round(x + d, 2) for x in (mbs, mbl) for d in (-0.01, 0, 0.01)} | {0.01}):
             for side in ("BACK", "LAY"):
                 for mbv in (True, False):
